@@ -1,3 +1,4 @@
+import Swat4.Lemmas.FactsExtra14
 import Swat4.Model.UseCases.Discovery
 import Swat4.Lemmas.Prog
 import Swat4.Lemmas.CleanComplete
